@@ -1,6 +1,7 @@
 /-
   C16 — Argument-value comparison is a coherent order, blind to range compression.
-  Property theorems only; helper lemmas live in Proofs/ArgValOrder.lean and Proofs/ArgValBridge.lean.
+  Property theorems only; helper lemmas live in Proofs/ArgValOrder.lean, Proofs/ArgValBridge.lean and
+  Proofs/ArgValMsg.lean.
 
   Reading of the statement.  An argument list is given as a structured list `s : List Item`
   (plain values, arrays of any nesting, `N x value`, `start … end` with a delta) of any length;
@@ -11,8 +12,13 @@
   `Val.noNaNList vs` excludes NaN.  `fuel` is the model's recursion bound; `fuelFor` always suffices.
   The model is the code with fixes C16-blob-prefix, C16-array-type, C16-itr-repeated-array
   C01-avmessage and C10-10-argval-math-wrap applied.  Only the sign of `cmp` is specified (`memcmp`/`strcmp` by sign).
+  The comparison options are not modelled: the model is the comparison with `opt == NULL`
+  (`float_tolerance` 0.0); the correspondence check also passes the default options explicitly and
+  requires the same results.  `Val.cmpList` takes over from the code also the orders the property does
+  not state (MIDI, values of different types, NULL strings, array element types).
 -/
 import RtoscModel.Proofs.ArgValBridge
+import RtoscModel.Proofs.ArgValMsg
 namespace Rtosc.ArgVal
 open Rtosc
 
@@ -291,5 +297,77 @@ example : cmp 40 [.arr 84 0] [.arr 105 0] 1 1 = .ok (-1) ∧ cmp 40 [.arr 105 0]
   decide +kernel
 -- hypotheses of compress_const_run / compress_arith_run
 example : ∀ i, i < 5 → rangeVal (.int .i 1) (.int .i 1) i = .ok (.int .i ((i : Int) + 1)) := by decide
+
+/-! ### What "arithmetic run" means, and what the message is -/
+
+/-- **range_arith_int**: the `n`-th value of an integer range is `start + n·delta`, computed in
+    wrapping `int32_t` ('i', 'c') / `int64_t` ('h') arithmetic — and exactly `start + n·delta`
+    when neither the product nor the sum leaves the type. -/
+theorem range_arith_int (n : Nat) :
+    (∀ d s, rangeVal (.int .i d) (.int .i s) n = .ok (.int .i (wrapI32 (s + wrapI32 (n * d))))) ∧
+    (∀ d s, rangeVal (.int .c d) (.int .c s) n = .ok (.int .c (wrapI32 (s + wrapI32 (n * d))))) ∧
+    (∀ d s, rangeVal (.huge d) (.huge s) n = .ok (.huge (wrapI64 (s + wrapI64 (n * d))))) ∧
+    (∀ d s : Int, -2147483648 ≤ n * d → n * d < 2147483648 → -2147483648 ≤ s + n * d → s + n * d < 2147483648 →
+      wrapI32 (s + wrapI32 (n * d)) = s + n * d) ∧
+    (∀ d s : Int, -9223372036854775808 ≤ n * d → n * d < 9223372036854775808 →
+      -9223372036854775808 ≤ s + n * d → s + n * d < 9223372036854775808 →
+      wrapI64 (s + wrapI64 (n * d)) = s + n * d) := by
+  refine ⟨?_, ?_, ?_, ?_, ?_⟩
+  · intro d s; simp [rangeVal, fromInt, mult, add, Cell.type]
+  · intro d s; simp [rangeVal, fromInt, mult, add, Cell.type]
+  · intro d s; simp [rangeVal, fromInt, mult, add, Cell.type]
+  · intro d s h1 h2 h3 h4
+    have e : wrapI32 (n * d) = n * d := by unfold wrapI32; omega
+    rw [e]; unfold wrapI32; omega
+  · intro d s h1 h2 h3 h4
+    have e : wrapI64 (n * d) = n * d := by unfold wrapI64; omega
+    rw [e]; unfold wrapI64; omega
+
+/-- **range_arith_float**: the `n`-th value of a float / double range is
+    `start ⊕ (float(n) ⊗ delta)` with one IEEE rounding per operation (`Float.lean`; `none` = a NaN
+    operand, which the property excludes). -/
+theorem range_arith_float (n : Nat) :
+    (∀ d s : UInt32, rangeVal (.flt d) (.flt s) n =
+      match f32.mul (UInt32.ofNat (f32.ofInt n)).toNat d.toNat with
+      | none => .error .nan
+      | some m => fop32 (f32.add s.toNat (UInt32.ofNat m).toNat)) ∧
+    (∀ d s : UInt64, rangeVal (.dbl d) (.dbl s) n =
+      match f64.mul (UInt64.ofNat (f64.ofInt n)).toNat d.toNat with
+      | none => .error .nan
+      | some m => fop64 (f64.add s.toNat (UInt64.ofNat m).toNat)) := by
+  refine ⟨?_, ?_⟩
+  · intro d s
+    unfold rangeVal fromInt mult
+    simp only [Cell.type, ne_eq, not_true_eq_false, if_false]
+    cases h : f32.mul (UInt32.ofNat (f32.ofInt n)).toNat d.toNat <;> simp [fop32, add, Cell.type]
+  · intro d s
+    unfold rangeVal fromInt mult
+    simp only [Cell.type, ne_eq, not_true_eq_false, if_false]
+    cases h : f64.mul (UInt64.ofNat (f64.ofInt n)).toNat d.toNat <;> simp [fop64, add, Cell.type]
+
+/-- **range_arith_bool**: a boolean range `start, start xor delta, start xor delta, …`. -/
+theorem range_arith_bool (n : Nat) (d s : FlagTy) (hd : d = .T ∨ d = .F) (hs : s = .T ∨ s = .F) :
+    rangeVal (.flag d) (.flag s) n =
+      .ok (.flag (if (s = .T) ≠ (n ≠ 0 ∧ d = .T) then .T else .F)) := by
+  rcases hd with rfl | rfl <;> rcases hs with rfl | rfl <;> by_cases h : n = 0 <;>
+    simp [rangeVal, fromInt, mult, add, Cell.type, FlagTy.char, h]
+
+/-- **avmessage_of_values**: when the denoted list holds no NULL string at top level,
+    `rtosc_avmessage` on *any* layout of it returns what `rtosc_amessage` (C01's model) builds from one
+    type character per denoted top-level value and one `rtosc_arg_t` per value that carries a payload
+    (an array contributes its `'a'` character only) — so the message clause of `compress_blind` is an
+    equation between defined results, not between two failures. -/
+theorem avmessage_of_values (s : List Item) (vs : List Val) (hs : expandList s = some vs)
+    (hn : noNullTop vs = true) (fuel : Nat) (hf : vs.length + 1 ≤ fuel) (buffer : Option Bytes) (addr : Bytes) :
+    avmessage fuel buffer addr (flatList s).length (flatList s)
+      = .ok (Osc.amessage buffer addr (vs.map fun v => v.head.type) (vs.flatMap Val.payload)) := by
+  rw [avmessage_bridge s vs hs fuel hf]
+  simp [msgOf, msgArgs_defined vs (expandList_leaves s vs hs) hn, bind, Except.bind, pure, Except.pure]
+
+example : noNullTop exV = true := by decide
+example : rangeVal (.int .c 1) (.int .c 0) 199 = .ok (.int .c 199) := by decide
+example : rangeVal (.huge 5000000000) (.huge (-5000000000)) 2 = .ok (.huge 5000000000) := by decide
+example : rangeVal (.int .i 2147483647) (.int .i 1) 3 = .ok (.int .i 2147483646) := by decide
+
 
 end Rtosc.ArgVal
